@@ -24,6 +24,15 @@ def replay_map_mode(inp):
     return None
 
 
+def enum_map_mode():
+    """every list of <=3 distinct internal modes out of {0..5} in EVERY order (they are stored in insertion order), every visible mode"""
+    import itertools
+    for k in range(0, 4):
+        for internal in itertools.permutations(range(6), k):
+            for mode in range(0, 6 - k + 1):
+                yield {"self": {"_Circuit__internal_modes": list(internal)}, "mode": mode}
+
+
 CONTRACTS = [
     Contract(
         target=f"{CIRC}:Circuit._map_mode",
@@ -415,3 +424,5 @@ AEM = Contract(
 )
 AEM.enum = enum_aem
 CONTRACTS += [AEM_SPEC, AEM]
+
+CONTRACTS[0].enum = enum_map_mode
